@@ -1270,6 +1270,10 @@ type nmGen struct {
 	prop string
 	// C08 plan
 	plan []nmOp
+	// last well-formed announcements per node, for re-announcements with an
+	// identical descriptor (nodes re-announce themselves every epoch)
+	lastInfo map[int][]byte
+	lastNode map[int]nmOp
 }
 
 func (g *nmGen) keyOf(i int) []byte { return g.n.nodes[i].pub }
@@ -1328,24 +1332,44 @@ func (g *nmGen) sig(node int, needNode bool) []int {
 	return []int{-1}
 }
 
+// reInfo returns a legacy node info for node i: the one announced last time
+// (identical re-announcement) in two cases out of five, a fresh one otherwise.
+func (g *nmGen) reInfo(i int, tag byte) []byte {
+	if last, ok := g.lastInfo[i]; ok && g.r.Intn(5) < 2 {
+		return append([]byte{}, last...)
+	}
+	info := g.n.info(i, tag, 3+g.r.Intn(3))
+	if g.lastInfo == nil {
+		g.lastInfo = map[int][]byte{}
+	}
+	g.lastInfo[i] = append([]byte{}, info...)
+	return info
+}
+
 func (g *nmGen) candOp(step int, tag byte) nmOp {
 	r := g.r
 	nn := len(g.n.nodes)
 	i := r.Intn(nn)
 	switch w := r.Intn(100); {
 	case w < 16:
-		info := g.n.info(i, tag, 3+r.Intn(3))
+		info := g.reInfo(i, tag)
 		if r.Intn(8) == 0 {
 			info = info[:r.Intn(36)]
 		}
 		return nmOp{Kind: "addPeer", Info: info, Signers: g.sig(i, true)}
 	case w < 30:
-		info := g.n.info(i, tag, 3+r.Intn(3))
+		info := g.reInfo(i, tag)
 		if r.Intn(8) == 0 {
 			info = info[:33+r.Intn(3)]
 		}
 		return nmOp{Kind: "addPeerIR", Info: info, Signers: g.sig(i, false)}
 	case w < 48:
+		if last, ok := g.lastNode[i]; ok && r.Intn(5) < 2 {
+			// re-announcement with an identical descriptor, whatever happened to the
+			// candidate since (state change, removal): must store it as Online again
+			last.Signers = g.sig(i, true)
+			return last
+		}
 		st := int64(1)
 		if r.Intn(8) == 0 {
 			st = g.anyState()
@@ -1365,7 +1389,14 @@ func (g *nmGen) candOp(step int, tag byte) nmOp {
 		if r.Intn(6) == 0 {
 			addrs, attrs = nil, nil
 		}
-		return nmOp{Kind: "addNode", Addrs: addrs, Attrs: attrs, Key: key, State: st, Signers: g.sig(g.n.nodeIndex(key), true)}
+		op := nmOp{Kind: "addNode", Addrs: addrs, Attrs: attrs, Key: key, State: st, Signers: g.sig(g.n.nodeIndex(key), true)}
+		if st == 1 && string(key) == string(g.keyOf(i)) {
+			if g.lastNode == nil {
+				g.lastNode = map[int]nmOp{}
+			}
+			g.lastNode[i] = op
+		}
+		return op
 	case w < 60:
 		key := g.anyKey()
 		return nmOp{Kind: "deleteNode", Key: key, Signers: g.sig(g.n.nodeIndex(key), false)}
@@ -1537,6 +1568,37 @@ func nmCorpus(prop string, n *nmEnv) [][]nmOp {
 		}
 		return out
 	}
+	// re-announcements: add of a key that already is (or was) a candidate, with an
+	// identical and with a changed descriptor, from Online, from Maintenance and after
+	// removal, in the legacy list (node 0: addPeer / addPeerIR), the structured list
+	// (node 1) and both (node 2). Adding always stores the node as Online, replaces
+	// older info and is announced.
+	reannounce := func() []nmOp {
+		var out []nmOp
+		peer := func(i int, tag byte) nmOp {
+			return nmOp{Kind: "addPeer", Info: n.info(i, tag, 4), Signers: []int{-1, i}}
+		}
+		peerIR := func(i int, tag byte) nmOp { return nmOp{Kind: "addPeerIR", Info: n.info(i, tag, 4), Signers: al} }
+		maint := func(i int) nmOp {
+			return nmOp{Kind: "updateState", State: 3, Key: n.nodes[i].pub, Signers: []int{-1, i}}
+		}
+		maintIR := func(i int) nmOp { return nmOp{Kind: "updateStateIR", State: 3, Key: n.nodes[i].pub, Signers: al} }
+		del := func(i int) nmOp { return nmOp{Kind: "deleteNode", Key: n.nodes[i].pub, Signers: al} }
+		off := func(i int) nmOp {
+			return nmOp{Kind: "updateState", State: 2, Key: n.nodes[i].pub, Signers: []int{-1, i}}
+		}
+		// legacy only
+		out = append(out, peer(0, 1), peer(0, 1), maint(0), peer(0, 1), maintIR(0), peer(0, 2), maint(0), peerIR(0, 2),
+			del(0), peer(0, 2), off(0), peerIR(0, 2), peerIR(0, 2), maintIR(0), peerIR(0, 3))
+		// structured only
+		out = append(out, addN(1, "x"), addN(1, "x"), maint(1), addN(1, "x"), maintIR(1), addN(1, "y"), maint(1), addN(1, "y"),
+			del(1), addN(1, "y"), off(1), addN(1, "x"))
+		// both
+		out = append(out, peer(2, 1), addN(2, "x"), maint(2), addN(2, "x"), peer(2, 1), maintIR(2), peerIR(2, 1), addN(2, "x"),
+			maint(2), peer(2, 2), addN(2, "y"), del(2), addN(2, "y"), peer(2, 2), maint(2), tick(1),
+			addN(2, "y"), peerIR(2, 2), tick(2))
+		return out
+	}
 	switch prop {
 	case "C06":
 		return [][]nmOp{
@@ -1574,6 +1636,7 @@ func nmCorpus(prop string, n *nmEnv) [][]nmOp {
 				tick(255),
 				tick(256),
 			},
+			reannounce(),
 		}
 	case "C07":
 		return [][]nmOp{
@@ -1611,6 +1674,7 @@ func nmCorpus(prop string, n *nmEnv) [][]nmOp {
 				{Kind: "addPeer", Info: n.info(0, 7, 4), Signers: []int{-1, 0}}, // re-adding
 				tick(2),
 			},
+			reannounce(),
 		}
 	case "C08":
 		return [][]nmOp{
